@@ -45,8 +45,13 @@ class SchemaGen:
         self.defined = []          # (fullname, kind, namespace)
         self.open_records = []     # full names of records being defined (recursive references)
 
+    KEYWORDISH = ["null_able", "longer", "Subfields", "typeOf", "itemsList", "recordKeeper", "mapped", "fixedUp", "enumerate",
+                  "unionized", "symbolsOf", "valuesOf", "stringy", "bytesOf", "intern", "doubled", "floaty", "booleanish", "named"]
+
     def fresh(self, kind):
         self.counter += 1
+        if self.rng.random() < 0.2:          # identifiers that CONTAIN Avro keywords (substring / key tests in the code)
+            return self.rng.choice(self.KEYWORDISH) + str(self.counter)
         return {"record": "R", "enum": "E", "fixed": "F"}[kind] + str(self.counter)
 
     def name_attrs(self, kind, ns):
@@ -144,7 +149,9 @@ class SchemaGen:
         fields = []
         for i in range(rng.choice([0, 1, 1, 2, 2, 3, 4, 5])):
             ft = self.field_type(depth + 1, cns)
-            f = {"name": rng.choice(["f%d" % i, "x%d" % i, "k%d" % i]), "type": ft}
+            f = {"name": rng.choice(["f%d" % i, "x%d" % i, "k%d" % i] +
+                                    (["type", "name", "fields", "items", "values", "symbols", "size", "default", "namespace", "null",
+                                      "logicalType", "aliases", "doc"][i:i + 1] if rng.random() < 0.15 else [])), "type": ft}
             if rng.random() < 0.35:
                 ok, d = self.default_for(ft, cns)
                 if ok:
